@@ -25,6 +25,8 @@ pub struct Report {
     pub max_fails: usize,
     /// C17 campaign: compare every reached state with its 64 x 12 single-square neighbours
     pub c17_neighbours: bool,
+    /// panics raised by the harness's own code (reported as a broken run, never as a violation)
+    pub internal_errors: Vec<String>,
 }
 
 impl Report {
@@ -38,6 +40,7 @@ impl Report {
             samples: vec![],
             max_fails: 20,
             c17_neighbours: false,
+            internal_errors: vec![],
         }
     }
     pub fn count(&mut self, k: &str) {
@@ -234,7 +237,12 @@ impl Game {
     pub fn check_state(&self, rep: &mut Report) {
         let before = rep.fails.len();
         if guard(|| self.check_state_inner(rep)).is_none() && rep.fails.len() == before {
-            rep.fail("C19", "query-panics", self, "a public query panicked while the oracles were evaluated".to_string());
+            if last_panic_is_internal() {
+                // a bug of this harness, not an observation about the crate: never blamed on a property
+                rep.internal_errors.push(format!("oracle code panicked in {} on a state of the game starting {:?} after {:?}", last_panic_file(), self.start, self.actions));
+            } else {
+                rep.fail("C19", "query-panics", self, format!("a public query panicked (in {}) while the oracles were evaluated", last_panic_file()));
+            }
         }
     }
 
@@ -245,6 +253,20 @@ impl Game {
         let side = s.is_p1_turn_to_move();
         let skey = state_key(s);
         rep.count("states");
+
+        // ---- parsed starts: the move number and the side are the ones written in the header ---
+        if self.applied == 0 && !self.from_initial && self.start.contains('+') {
+            let head = self.start.trim_start().lines().next().unwrap_or("").trim();
+            if head.len() >= 2 && head.is_ascii() && matches!(head.as_bytes()[head.len() - 1], b'g' | b's' | b'w' | b'b') && head[..head.len() - 1].chars().all(|c| c.is_ascii_digit()) {
+                let num = head[..head.len() - 1].trim_start_matches('0');
+                let num = if num.is_empty() { "0" } else { num };
+                let gold = matches!(head.chars().last(), Some('g') | Some('w'));
+                if s.move_number().to_string() != num || side != gold {
+                    rep.fail("C03", "parsed-header-not-kept", self, format!("header {} but move number {} gold-to-move {}", head, s.move_number(), side));
+                    rep.fail("C15", "parsed-header-not-kept", self, format!("header {} but move number {} gold-to-move {}", head, s.move_number(), side));
+                }
+            }
+        }
 
         // ---- C19: nothing panics ------------------------------------------------------------
         rep.eval("C19");
